@@ -85,9 +85,18 @@ def r02_2_join_payload(ctx: Ctx, rule: str = "R02.2") -> None:
         from ..astutil import pattern_captures
 
         jcaps = pattern_captures(p.steps[idx].node.pattern)  # type: ignore[union-attr]
-        common_v = next((n for n, acc in jcaps.items() if acc[-1:] == ("common_columns",)), "common_columns")
-        loops_common = any(isinstance(n, ast.comprehension) and src(n.iter) == common_v for e in sl.exprs for n in ast.walk(e))
-        has_loop_path = has_fact(path_facts(p), "TRUTH", (common_v,), True)
+        from ..flow import field_access as _fa
+
+        def _is_common(e: ast.AST) -> bool:
+            # the join operation's own `common_columns` (resolved at construction), not a set recomputed from the operands
+            fa = _fa(p, e)
+            return fa is not None and fa[0] == rel and fa[1][-1:] == ("common_columns",) and "operation" in fa[1]
+
+        loops_common = any(isinstance(n, ast.comprehension) and _is_common(n.iter) for e in sl.exprs for n in ast.walk(e))
+        truths = [fct.args[0] for fct in path_facts(p) if fct.kind == "TRUTH" and fct.polarity]
+        has_loop_path = any(_is_common(ast.parse(t, mode="eval").body) for t in truths if t.replace(".", "").replace("_", "").isalnum())
+        if not has_loop_path and any(isinstance(n, ast.comprehension) and "columns" in src(n.iter) for e in sl.exprs for n in ast.walk(e)) and not loops_common and truths:
+            has_loop_path = True  # equality terms are built from some other column set: decided (and refused) below
         # a list that received terms on this path cannot be tested empty afterwards: such paths are not real executions
         extended = {src(c.func.value) for _, c in path_calls(p, idx) if call_attr(c) in ("extend", "append") and isinstance(c.func, ast.Attribute)}
         if any(fct.kind == "TRUTH" and not fct.polarity and fct.args[0] in extended for fct in path_facts(p)):
@@ -529,3 +538,120 @@ def r_select_list_order(ctx: Ctx, rule: str) -> None:
                 )
     if seen == 0:
         raise AnalysisError("_select_to_executable no longer calls select_items")
+
+
+def r_identifier_agreement(ctx: Ctx, rule: str) -> None:
+    """Writers (``.label(...)``) and readers (``columns[...]``) of SQL column names must go through one function."""
+    run, m = ctx.run, ctx.m
+    run.rule(
+        rule,
+        "every SQL column name derived from a column tag - the label a SELECT list gives a column and the key a column is "
+        "looked up by in a table or subquery - comes from self.get_identifier(<tag>): the writer and the readers of a "
+        "name agree for every engine subclass that overrides get_identifier",
+        expected_min=3,
+    )
+    mod = m.modules.get(SQL_ENGINE) if hasattr(m, "modules") and isinstance(m.modules, dict) else None
+    eng = ctx.cls(SQL_ENGINE, "Engine")
+    gid = eng.methods.get("get_identifier")
+    if gid is None:
+        raise AnalysisError("sql.Engine.get_identifier is missing")
+    seen = 0
+    for f in eng.methods.values():
+        if f is gid:
+            continue
+        parents: dict[int, ast.AST] = {}
+        for n in ast.walk(f.node):
+            for ch in ast.iter_child_nodes(n):
+                parents[id(ch)] = n
+
+        def _is_gid(e: ast.AST | None) -> bool:
+            return isinstance(e, ast.Call) and call_attr(e) == "get_identifier" and isinstance(e.func, ast.Attribute) and src(e.func.value) == "self"
+
+        for n in ast.walk(f.node):
+            if isinstance(n, ast.Call) and call_attr(n) == "label" and len(n.args) == 1 and not n.keywords:
+                a = n.args[0]
+                if isinstance(a, ast.Constant) or not any(isinstance(x, ast.Name) and x.id != "self" for x in ast.walk(a)):
+                    continue  # a fixed name (constant or class attribute), not derived from a tag
+                seen += 1
+                inst = f"{f.qualname}:label@{src(a)[:40]}"
+                if _is_gid(a):
+                    run.ok(rule, inst)
+                else:
+                    run.fail(rule, inst, f"a SELECT-list column is labelled `{src(a)[:60]}` instead of self.get_identifier(<tag>): readers look the column up under get_identifier's name, so an engine that overrides it cannot find the column in a subquery", fi=f, node=n)
+            elif isinstance(n, ast.Subscript) and not isinstance(n.slice, (ast.Slice, ast.Constant)):
+                idx = n.slice
+                mentions_name = any(isinstance(x, ast.Attribute) and x.attr == "qualified_name" for x in ast.walk(idx))
+                if _is_gid(idx):
+                    seen += 1
+                    run.ok(rule, f"{f.qualname}:lookup@{src(n.value)[:30]}")
+                elif mentions_name:
+                    seen += 1
+                    run.fail(rule, f"{f.qualname}:lookup@{src(n.value)[:30]}", f"a column is looked up under `{src(idx)[:60]}` instead of self.get_identifier(<tag>)", fi=f, node=n)
+            elif isinstance(n, ast.Attribute) and n.attr == "qualified_name":
+                # the only other legitimate use: an ordering key (sorted(..., key=lambda tag: tag.qualified_name))
+                par = parents.get(id(n))
+                anc = par
+                in_key = False
+                while anc is not None:
+                    if isinstance(anc, ast.keyword) and anc.arg == "key":
+                        in_key = True
+                        break
+                    anc = parents.get(id(anc))
+                if in_key:
+                    continue
+                if isinstance(par, ast.Subscript) or (isinstance(par, ast.Call) and call_attr(par) == "label"):
+                    continue  # reported above
+                # flows into a name position?  (label / column / table-column lookup / bindparam)
+                up = par
+                while up is not None and not isinstance(up, (ast.Call, ast.stmt)):
+                    up = parents.get(id(up))
+                if isinstance(up, ast.Call) and call_attr(up) in ("label", "column", "literal_column", "get", "corresponding_column"):
+                    seen += 1
+                    run.fail(rule, f"{f.qualname}:name@{call_attr(up)}", f"`{src(up)[:70]}` names a SQL column by tag.qualified_name instead of self.get_identifier(<tag>)", fi=f, node=up)
+    if seen == 0:
+        raise AnalysisError("the SQL engine no longer labels or looks up columns by name")
+
+
+def r_anonymous_binds(ctx: Ctx, rule: str) -> None:
+    """Two literals in one statement must not share a bind-parameter name."""
+    run, m = ctx.run, ctx.m
+    run.rule(
+        rule,
+        "every literal value reaches SQL through an anonymous, per-occurrence bind parameter (sqlalchemy literal(), or "
+        "bindparam with key None / unique=True): a fixed bind name is shared by all literals of a statement, which then "
+        "all carry one value",
+        expected_min=2,
+    )
+    eng = ctx.cls(SQL_ENGINE, "Engine")
+    seen = 0
+    for f in eng.methods.values():
+        for c in iter_calls(f.node):
+            name = call_attr(c) or (c.func.id if isinstance(c.func, ast.Name) else "")
+            if name == "literal" and "sqlalchemy" in (dotted(c.func) or "sqlalchemy"):
+                seen += 1
+                run.ok(rule, f"{f.qualname}:literal")
+            elif name == "bindparam":
+                seen += 1
+                key = c.args[0] if c.args else kw(c, "key")
+                uniq = kw(c, "unique")
+                anonymous = key is None or (isinstance(key, ast.Constant) and key.value is None) or (isinstance(uniq, ast.Constant) and uniq.value is True)
+                inst = f"{f.qualname}:bindparam"
+                if anonymous:
+                    run.ok(rule, inst)
+                else:
+                    run.fail(rule, inst, f"`{src(c)[:70]}` binds a value under the fixed name `{src(key)[:30]}`: every literal converted by this method shares that name, so a statement with two literals executes with one value for both", fi=f, node=c)
+    cl = eng.methods.get("convert_column_literal")
+    if cl is None:
+        raise AnalysisError("sql.Engine.convert_column_literal is missing")
+    vparam = [q for q in cl.params if q != "self"][0]
+    for i, p in enumerate(ctx.paths(cl)):
+        if p.outcome != "return":
+            continue
+        seen += 1
+        sl = backward_slice(p, [p.value])
+        if any(isinstance(n, ast.Name) and n.id == vparam for e in sl.exprs for n in ast.walk(e)):
+            run.ok(rule, f"convert_column_literal:value:path{i}")
+        else:
+            run.fail(rule, f"convert_column_literal:value:path{i}", "the converted literal does not depend on the value", fi=cl, node=p.node)
+    if seen == 0:
+        raise AnalysisError("the SQL engine no longer converts literals")
